@@ -176,7 +176,7 @@ pub fn gen_case(r: &mut Rng, out: &mut String) {
         }
         writeln!(out, "jsize_hint j0").unwrap();
     }
-    if r.chance(1, 4) {
+    if r.chance(1, if borrowed { 4 } else { 2 }) {
         // the specialised fold / rfold / len of the treemap iterators (the iterator is consumed: last op on j0)
         writeln!(out, "jlen j0").unwrap();
         writeln!(out, "{} j0", if r.chance(1, 2) { "jfold" } else { "jrfold" }).unwrap();
